@@ -197,6 +197,20 @@ impl TenantIndex {
         result
     }
 
+    /// the namespace actor became known (dependency injection finished): announce the tenants that already
+    /// hold configs - start-up replay can load configs before the injection, and those notices were dropped
+    pub(crate) fn announce_namespaces_in_use(&self) {
+        for tenant in self.tenant_group.keys() {
+            self.notify_namespace_change(
+                WeakNamespaceParam {
+                    namespace_id: tenant.clone(),
+                    from_type: WeakNamespaceFromType::Config,
+                },
+                false,
+            );
+        }
+    }
+
     fn notify_namespace_change(&self, param: WeakNamespaceParam, is_remove: bool) {
         if SYSCONFIG_NAMESPACE == param.namespace_id.as_str() {
             //历史系统命名空间跳过
